@@ -102,3 +102,19 @@ Theorem c08_analytic_update_symbols_closed :
     \/ s = Pn r r \/ s = X r \/ s = H \/ In s (bsyms r) \/ In s (pssyms r).
 Proof. exact update_symbols. Qed.
 Print Assumptions c08_analytic_update_symbols_closed.
+
+(* non-vacuity: an accepted second-order entry whose keys are listed in descending order, one of them with a blank *)
+Example c08_initial_values_example :
+  let e := {| e_expr := Some (list_ascii_of_string "x'' = -x - 2*x'"); e_has_iv := false;
+              e_ivs := Some [list_ascii_of_string " x'"; list_ascii_of_string "x"] |} in
+  let kvs := [(list_ascii_of_string " x'", 7); (list_ascii_of_string "x", 3)] in
+  check_entry [list_ascii_of_string "t"; list_ascii_of_string "exp"] (list_ascii_of_string "__d") e = Accepted (list_ascii_of_string "x") 2
+  /\ e_ivs e = Some (map fst kvs)
+  /\ output_ivs 2 kvs = [Some 3; Some 7].
+Proof. vm_compute. repeat split. Qed.
+
+(* non-vacuity of the symbol-closure statement: a 2x2 block with an offset on row 0 really mentions all kinds of symbols *)
+Example c08_analytic_update_symbols_example :
+  usyms nat 2 (fun c => 10 + c) (fun r c => 20 + 2 * r + c) 99 (fun _ => [50]) (fun _ => [50; 51]) (fun _ _ => true) (fun r => Nat.eqb r 0) (fun _ => true) 0
+  = [20; 10; 21; 11; 20; 10; 20; 10; 50; 51; 50; 51].
+Proof. vm_compute. reflexivity. Qed.
